@@ -321,6 +321,13 @@ impl Cw20 {
         out
     }
 
+    /// read through the client-side helper the repository ships (packages/cw20 `Cw20Contract`)
+    pub fn via_helper<T>(&self, f: impl FnOnce(&cw20::Cw20Contract, &cosmwasm_std::QuerierWrapper) -> cosmwasm_std::StdResult<T>) -> Option<T> {
+        let router = crate::direct::Router { w: &self.w, smart: |d, e, m| cw20_base::contract::query(d, e, cosmwasm_std::from_json(m)?) };
+        let q = cosmwasm_std::QuerierWrapper::new(&router);
+        f(&cw20::Cw20Contract(self.w.contract.clone()), &q).ok()
+    }
+
     pub fn snap(&self, with_allow: bool) -> Snap {
         let p = pool();
         let listed = self.all_accounts();
